@@ -72,6 +72,9 @@ type Consumer struct {
 	ErrCap   int    `json:"error_capacity"`
 	Yields   []int  `json:"yields,omitempty"`
 	Procs    int    `json:"gomaxprocs,omitempty"`
+	// StallMs: the consumer does nothing for this long before it takes the second value (it writes the first entry to
+	// a database, say): the stream is delivered at whatever pace it is taken
+	StallMs int `json:"stall_ms,omitempty"`
 }
 
 type Case struct {
@@ -357,8 +360,12 @@ func consume(c Case, data []byte) (o outcome, problem error) {
 			uniprot.Parse(bytes.NewReader(data), entries, errs)
 		}()
 	}
+	deadline := deadline + time.Duration(c.Consumer.StallMs)*time.Millisecond
 	timeout := time.After(deadline)
 	yield := func(i int) {
+		if i == 1 && c.Consumer.StallMs > 0 {
+			time.Sleep(time.Duration(c.Consumer.StallMs) * time.Millisecond)
+		}
 		if n := len(c.Consumer.Yields); n > 0 {
 			for y := 0; y < c.Consumer.Yields[i%n]; y++ {
 				runtime.Gosched()
@@ -728,6 +735,43 @@ func TestSub_truncation(t *testing.T) {
 						c.Consumer.ErrCap = []int{0, 1, 100}[t%3]
 					}
 					if !yield(c) {
+						return
+					}
+				}
+			}
+		}
+	})
+}
+
+var subStalls = vk.Register(&vk.Sub[Case]{Name: "stalls", Check: check, NonTrivial: nonTrivial, Sample: sample})
+
+// TestSub_stalls: a consumer that takes the first entry and then does nothing for a while - longer than the round
+// numbers a well-meant timeout would use - before it goes on: every entry still arrives, in order, and both channels are
+// closed. One case per process, so the sub-check takes as long as its longest stall.
+func TestSub_stalls(t *testing.T) {
+	stalls := []int{1200}
+	if vk.Thorough() {
+		stalls = []int{1200, 2500, 5500, 11000, 16000, 31000, 61000}
+	}
+	vk.RunManual(t, subStalls, "a consumer stalling for 1.2 s (quick) / 1.2 .. 61 s (thorough) after the first entry, sequential and concurrent consumers, through Parse (five entries, entry-channel capacities 0 and 1) and through Read on a gzip file (110 entries, more than its channel holds)", true, func(m *vk.Manual[Case]) {
+		unit := 0
+		for _, ms := range stalls {
+			for _, capacity := range []int{0, 1} {
+				for k, kind := range []string{"sequential", "concurrent"} {
+					unit++
+					if !vk.Mine(unit) {
+						continue
+					}
+					c := Case{Copyright: true, Pretty: true, Damage: Damage{Kind: "none"}, Consumer: Consumer{Kind: kind, EntryCap: capacity, ErrCap: 100, StallMs: ms, Procs: 2}}
+					c.ViaGzip = (k+capacity)%2 == 1
+					n := 5
+					if c.ViaGzip {
+						n = 110 // Read's own channel holds 100: more than that, so that the parser has to wait for the consumer
+					}
+					for i := 0; i < n; i++ {
+						c.Entries = append(c.Entries, EntrySpec{Accessions: []string{fmt.Sprintf("P%05d", i)}, Names: []string{fmt.Sprintf("STALL_%d", i)}, Sequence: vk.Fill(uint64(ms+i), 20+i%7, "ACDEFGHIKLMNPQRSTVWY")})
+					}
+					if !m.Eval(c) {
 						return
 					}
 				}
